@@ -2,7 +2,7 @@
     Property theorems only; proofs are in Proofs/ErrProofs.v. *)
 From Coq Require Import List ZArith NArith String.
 Import ListNotations.
-Require Import AvraV.Model.Base AvraV.Model.Ast AvraV.Model.Eval AvraV.Model.Lines AvraV.Model.Parse AvraV.Model.Passes.
+Require Import AvraV.Model.Base AvraV.Model.Ast AvraV.Model.Eval AvraV.Model.Grammar AvraV.Model.Lines AvraV.Model.Parse AvraV.Model.Passes.
 Require Import AvraV.Proofs.ErrProofs.
 
 (** Errors are structured in the model ([Err (Some n)] = the text names line n), so attribution is a
@@ -44,6 +44,31 @@ Theorem C15_error_directive : forall fuel inc m st line,
   directive_parse fuel inc DError (OpList [PS m]) st line = Err (Some line).
 Proof. exact error_directive_fails. Qed.
 Print Assumptions C15_message.
+
+(** Line numbers: the i-th physical line of the source (every LF ends one; there is no continuation line) carries the number i,
+    an unbounded natural number - the loop adds one and reports that: no width, no wrap-around, no joining of lines.  Messages
+    with any text, the empty one included, are recorded ([C15_message] has no hypothesis on the text). *)
+From Coq Require Import Lia.
+Theorem C15_line_numbers : forall ls k i n t, nth_error (number_from k ls) i = Some (n, t) -> n = (k + N.of_nat i)%N /\ nth_error ls i = Some t.
+Proof.
+  induction ls as [|x r IH]; intros k i n t H; destruct i as [|i]; cbn [number_from nth_error] in H; try discriminate.
+  - injection H as <- <-. split; [lia | reflexivity].
+  - apply IH in H. destruct H as (-> & H). split; [lia | exact H].
+Qed.
+Theorem C15_lines_are_split_at_every_LF : forall a b, (forall c, In c a -> Grammar.code c <> 10%N) ->
+  split_lines (a ++ Ascii.ascii_of_N 10 :: b) = (match rev a with cr :: a' => if (Grammar.code cr =? 13)%N then rev a' else a | [] => [] end) :: split_lines b.
+Proof.
+  intros a b Ha. unfold split_lines.
+  assert (G : forall cur, split_lines_aux (a ++ Ascii.ascii_of_N 10 :: b) cur =
+                          (match rev a ++ cur with cr :: c' => if (Grammar.code cr =? 13)%N then rev c' else rev (rev a ++ cur) | [] => [] end) :: split_lines_aux b []).
+  { induction a as [|c a IH]; intros cur.
+    - cbn [app split_lines_aux rev]. change (Grammar.code (Ascii.ascii_of_N 10) =? 10)%N with true. cbn iota. reflexivity.
+    - cbn [app split_lines_aux]. destruct (Grammar.code c =? 10)%N eqn:E; [apply N.eqb_eq in E; exfalso; eapply Ha; [left; reflexivity | exact E]|].
+      rewrite IH by (intros c' Hc'; apply Ha; right; exact Hc'). cbn [rev]. rewrite <- app_assoc. reflexivity. }
+  rewrite G, app_nil_r. destruct (rev a) as [|cr a'] eqn:E; [reflexivity|].
+  destruct (Grammar.code cr =? 13)%N; [reflexivity|]. rewrite <- E, rev_involutive. reflexivity.
+Qed.
+Print Assumptions C15_line_numbers.
 
 Definition err_line (src : string) : option (option N) :=
   match build_str 200 (list_ascii_of_string src) with Err l => Some l | _ => None end.
